@@ -342,7 +342,7 @@ def validate_h5(seed=0):
         n += 1
     # fixed-width byte strings cut what does not fit
     for f in (real, model):
-        f.create_dataset('fixedw', shape=(2,), dtype='S3', data=[b'abcdef', 'caf\u00e9'.encode('utf8')])
+        f.create_dataset('fixedw', shape=(3,), dtype='S3', data=[b'abcdef', 'caf\u00e9'.encode('utf8'), b'x'])
     if [bytes(x) for x in real['fixedw'][:]] != [bytes(x) for x in model['fixedw'][:]]:
         raise ModelMismatch(f"h5 fixed-width strings: {list(real['fixedw'][:])} vs {list(model['fixedw'][:])}")
     n += 1
